@@ -383,4 +383,22 @@ func init() {
 		)
 		props["C05"] = p
 	}
+
+	// ---- C06 ----
+	{
+		p := &Prop{ID: "C06", Outside: []string{
+			"types outside the family (constructors nested deeper than 2, objects with members other than a, b); expressions outside the 40 + 16 templates: the claim for expressions of any size follows by induction over these one-step rules only for environments whose types are in the family",
+			"this is a bounded exhaustive enumeration of (type, loosening, rule) triples (shape-symbolic); no input here is solver-quantified",
+			"Merge is only required to return any when merged with any (bool/number are coerced into string by design)",
+		}}
+		p.Quick = []HRun{
+			{Entry: "HarnessC06Rules", Args: []int64{1, 0}, Bound: "types of depth <= 1 (71) x every single loosening x 40 expression templates x other operand of 5 base types x both operand positions", Require: []string{"compared", "accepted-before"}},
+			{Entry: "HarnessC06Algebra", Args: []int64{2}, Bound: "any-assignability and merge-with-any for all 3305 types of depth <= 2", Require: []string{"compared"}},
+			{Entry: "HarnessC06Template", Bound: "template evaluation, bool, number and if: positions with a value of type any", Require: []string{"checked"}},
+		}
+		p.Thorough = append(append([]HRun{}, p.Quick...),
+			HRun{Entry: "HarnessC06Rules", Args: []int64{2, 1}, Bound: "types of depth <= 2 (3305) x every single loosening x 16 deep expression templates", Require: []string{"compared", "accepted-before"}},
+		)
+		props["C06"] = p
+	}
 }
